@@ -239,7 +239,15 @@ class Walker:
                 break
             vals, _ = self.candidates(s)
             kind = rng.randrange(4)
-            if kind == 0 and vals:
+            # bytes that make the state move without consuming (fall-through edges: else clauses, handlers, loop back
+            # edges) are where non-consuming cycles and end-of-input hand-overs live: half of the draws go there
+            fallvals = [v for t in self._ctr[s] if t["fall"] for v in t["on"] if isinstance(v, int)]
+            fall_else = any(t["fall"] and "L" in t["on"] for t in self._ctr[s])
+            if (fallvals or fall_else) and rng.random() < 0.5:
+                b = rng.choice(sorted(set(fallvals))) if fallvals and (not fall_else or rng.random() < 0.5) else self._else_byte(s, rng)
+                if b is None:
+                    b = rng.choice(allvals)
+            elif kind == 0 and vals:
                 b = rng.choice(vals)
             elif kind == 1:
                 b = rng.choice(allvals)
